@@ -118,6 +118,30 @@ def run(ck):
             ck.count('witness:' + k, True)
             if bad:
                 ck.fail('c05:' + k, 'ill-formed program is not refused: ' + json.dumps(bad), dict(source=src, rule_violated=k, tools=brief(obs)))
+        # ---- 1b. name used after its block x how the block ends x kind of block x position of the use (90 fixed programs)
+        fam = scope_witnesses.exit_family()
+        fsx = {k: progen.to_sexp(p) for k, p in fam.items()}
+        fwt = dict(zip(fam, T.model_wt(nv, [fsx[k] for k in fam])))
+        known_entries = {k['key']: k for k in ck.known}
+        def onef(kv):
+            k, p = kv
+            src = T.to_nano(p)
+            return k, src, T.run_three(b, wd, 'x_' + k.replace(':', '_').replace('-', '_'), src)
+        exit_tab = collections.Counter()
+        for k, src, obs in langlib.pmap(onef, sorted(fam.items())):
+            ck.count('scope-exit:' + k, True)
+            if fwt[k]:
+                ck.fail('c05:model:%s:well-typed' % k, 'a name-used-after-its-block program is accepted by the reference checker (Types.v or the family is wrong)', dict(source=src, program_sexp=fsx[k]))
+            bad = {t: v for t, v in judge(obs).items() if v}
+            exit_tab['refused by all three' if not bad else 'not refused by ' + '+'.join(sorted(bad))] += 1
+            if bad:
+                rep = dict(source=src, program_sexp=fsx[k], rule_violated='name used after its block: ' + k, tools=brief(obs))
+                ent = known_entries.get('c05:' + k)
+                if ent is not None and ent.get('failing_tools'):
+                    for t in sorted(set(bad) - set(ent['failing_tools'])):      # a recorded program that a FURTHER tool now accepts: own key
+                        ck.fail('c05:%s:%s' % (k, t), 'ill-formed program now also not refused by %s: %s' % (t, json.dumps(bad[t])), rep)
+                ck.fail('c05:' + k, 'ill-formed program is not refused: ' + json.dumps(bad), rep)
+        ck.extra['scope_exit_family'] = dict(programs=len(fam), verdicts=dict(exit_tab))
         # ---- 2. generated programs x catalogue
         cfg = c02.stream_cfg(ck)
         nprog = 40 if ck.thorough else 8
@@ -223,7 +247,7 @@ def run(ck):
     ck.extra['mutants_generated'] = len(items)
     ck.extra['mutants_run_on_tools'] = len(results)
     ck.extra['programs'] = nprog
-    ck.cov['rule'] = ('every (rule, position) of the catalogue Lang/Mutate.mut (18 rules; positions = every node of every function body) applied to '
+    ck.cov['rule'] = ('every (rule, position) of the catalogue Lang/Mutate.mut (21 rules; positions = every node of every function body) applied to '
                       'type-directed random well-typed programs (progen); each mutant is checked by the extracted reference checker (must be ill-typed), '
                       'by the real front end (probe), and -- all front-end-refused mutants, all mutants accepted for an unrecorded reason, and a sample '
                       'per recorded unchecked place -- by the three real tools.  non-trivial = a mutant that was run on the three tools; distinct = '
